@@ -96,9 +96,10 @@ Fixpoint polyb {K} (e : expr K) : bool :=
   | Fn _ _ => false
   end.
 
-(* absv: `_node_to_expr` renames the call to `abs`, `_resolve_derivatives` looks for the name `absv`: the derivative of
-   an absv call stays an unevaluated Derivative(...), `_expr_to_jac_str` returns None and the WHOLE entry is left 0
-   (a comment is written into the generated source; nothing is raised).  `unresolved x e`: diff(e, x) keeps such a node. *)
+(* absv, before fix D51: `_node_to_expr` renames the call to `abs`, `_resolve_derivatives` looked for the name `absv` only: the
+   derivative of an absv call stayed an unevaluated Derivative(...), `_expr_to_jac_str` returned None and the WHOLE entry was
+   left 0 (a comment in the generated source; nothing raised).  `unresolved x e`: diff(e, x) keeps such a node.  Since D51 the
+   rule absv -> sign applies and no entry is skipped (`noskip`); the old behaviour is kept as `jac_impl_preD51`. *)
 Fixpoint has_abs {K} (e : expr K) : bool :=
   match e with
   | Cst _ | At _ => false
@@ -116,6 +117,8 @@ Fixpoint unresolved {K} (x : atom) (e : expr K) : bool :=
     | Fn f a => match f with FAbs => true | _ => unresolved x a end
     end
   else false.
+
+Definition noskip {K} (x : atom) (e : expr K) : bool := false.
 
 (* ---------------------------------------------------------------------------------------------- derivative *)
 (* derivative of the function f at argument a, as PyRates/sympy write it: identity -> 1, sigmoid -> s(1-s),
@@ -259,18 +262,19 @@ Fixpoint pos (v : nat) (l : list nat) : option nat :=
 Definition enumerate {A} (l : list A) : list (nat * A) := combine (seq 0 (length l)) l.
 
 Definition entries K := list ((nat * nat) * expr K).
-(* J0_entries[(i_row, j_col)] = d  if d != 0 (and the entry is printable: no unresolved Derivative) *)
-Definition j0_entries {K} (O : ops K) (st : list nat) (fs : list (expr K)) : entries K :=
+(* J0_entries[(i_row, j_col)] = d  if d != 0; `skip x f`: the entry is not printable (unresolved Derivative, before D51) *)
+Definition j0_entries {K} (O : ops K) (skip : atom -> expr K -> bool) (st : list nat) (fs : list (expr K)) : entries K :=
   flat_map (fun '(i, f) =>
-    flat_map (fun '(j, y) => if occurs (AV y) f && negb (unresolved (AV y) f) then [((i, j), D O f (AV y))] else [])
+    flat_map (fun '(j, y) => if occurs (AV y) f && negb (skip (AV y) f) then [((i, j), D O f (AV y))] else [])
              (enumerate st)) (enumerate fs).
 (* J_hist[d][(i_row, col)] = d  if d != 0;  col = fj_idx (state index; fixed = true, the code after fix D08) or the
    running counter inside the delay group (fixed = false, the code before) *)
-Definition hist_entries {K} (O : ops K) (fixed : bool) (st : list nat) (fs : list (expr K)) (d : nat) : entries K :=
+Definition hist_entries {K} (O : ops K) (fixed : bool) (skip : atom -> expr K -> bool) (st : list nat) (fs : list (expr K)) (d : nat)
+  : entries K :=
   flat_map (fun '(i, f) =>
     flat_map (fun '(c, (v, d')) =>
       match pos v st with
-      | Some vidx => if occurs (AP v d') f && negb (unresolved (AP v d') f)
+      | Some vidx => if occurs (AP v d') f && negb (skip (AP v d') f)
                      then [((i, if fixed then vidx else c), D O f (AP v d'))] else []
       | None => []
       end) (enumerate (filter (fun p => match pos (fst p) st with Some _ => true | None => false end) (group fs d))))
@@ -293,26 +297,28 @@ Inductive result (M : Type) := NameErr | Ok (J0 : M) (hs : list (nat * M)).
 Arguments NameErr {M}. Arguments Ok {M}.
 
 (* an instantaneous entry is printed without the table of past symbols: any past symbol left in it is an undefined name *)
-Definition name_error {K} (O : ops K) (s : sys K) : bool :=
-  existsb (fun ke => has_past (snd ke)) (j0_entries O (states s) (fexprs s)).
-Definition no_delayed_factor_in_j0 {K} (O : ops K) (s : sys K) : bool := negb (name_error O s).
+Definition name_error {K} (O : ops K) (skip : atom -> expr K -> bool) (s : sys K) : bool :=
+  existsb (fun ke => has_past (snd ke)) (j0_entries O skip (states s) (fexprs s)).
+Definition no_delayed_factor_in_j0 {K} (O : ops K) (s : sys K) : bool := negb (name_error O noskip s).
 
-Definition jac_sym {K} (O : ops K) (fixed : bool) (s : sys K) : result (list (list (expr K))) :=
+Definition jac_sym {K} (O : ops K) (fixed : bool) (skip : atom -> expr K -> bool) (s : sys K) : result (list (list (expr K))) :=
   let fs := fexprs s in
   let size := length (states s) in
-  if name_error O s then NameErr
-  else Ok (mat O size (j0_entries O (states s) fs))
-          (map (fun d => (d, mat O size (hist_entries O fixed (states s) fs d))) (delays fs)).
+  if name_error O skip s then NameErr
+  else Ok (mat O size (j0_entries O skip (states s) fs))
+          (map (fun d => (d, mat O size (hist_entries O fixed skip (states s) fs d))) (delays fs)).
 
 Definition eval_mat {K} (O : ops K) (r : atom -> K) (m : list (list (expr K))) : list (list K) :=
   map (map (eval O (fun c => c) r)) m.
-Definition jac_impl_gen {K} (O : ops K) (fixed : bool) (s : sys K) (r : atom -> K) : result (list (list K)) :=
-  match jac_sym O fixed s with
+Definition jac_impl_gen {K} (O : ops K) (fixed : bool) (skip : atom -> expr K -> bool) (s : sys K) (r : atom -> K)
+  : result (list (list K)) :=
+  match jac_sym O fixed skip s with
   | NameErr => NameErr
   | Ok j0 hs => Ok (eval_mat O r j0) (map (fun dm => (fst dm, eval_mat O r (snd dm))) hs)
   end.
-Definition jac_impl {K} (O : ops K) := @jac_impl_gen K O true.           (* the code as it is now *)
-Definition jac_impl_preD08 {K} (O : ops K) := @jac_impl_gen K O false.   (* the code before fix D08 *)
+Definition jac_impl {K} (O : ops K) := @jac_impl_gen K O true noskip.            (* the code as it is now *)
+Definition jac_impl_preD08 {K} (O : ops K) := @jac_impl_gen K O false noskip.    (* the code before fix D08 *)
+Definition jac_impl_preD51 {K} (O : ops K) := @jac_impl_gen K O true unresolved. (* the code before fix D51 (absv) *)
 
 (* the whole specification as one value *)
 Definition jac_spec {K} (O : ops K) (s : sys K) (r : atom -> K) : result (list (list K)) :=
